@@ -40,7 +40,8 @@ def wparamsOf (j : Json) : Except String (List WParam) := do
     let item := if ty == "intarray" then Item.integer else if ty == "array" then itemOf (gs p "items") else itemOf ty
     let style := match go p "style" with | .str s => some (styleOf s) | _ => none
     let explode := match go p "explode" with | .bool b => some b | _ => none
-    pure { name, loc, pathLevel := gs p "level" == "path", isArray, item, required := gb p "required" || loc == .path,
+    -- a parameter without `schema` (described by `content`) is an `Option<String>` member whatever `required` says
+    pure { name, loc, pathLevel := gs p "level" == "path", isArray, item, required := (gb p "required" && ty != "noschema") || loc == .path,
            style, explode, hasDefault := go p "default" != Json.null }
 
 def formText : HForm → String
